@@ -384,7 +384,13 @@ fn oracle(case: &[u8], obs: &mut Obs) -> Result<(), String> {
         _ => {
             let mut f = FileSpec::new(enc);
             f.add_sec(b"", m::SHT_NULL, vec![]);
-            let i = f.add_sec(b".note.y", m::SHT_PROGBITS, data.clone());
+            // the covered section is a plain PROGBITS section or (half) a SHT_NOTE section with an alignment of its own:
+            // a segment's records are laid out by p_align
+            let sec_is_note = c.bool();
+            let i = f.add_sec(b".note.y", if sec_is_note { m::SHT_NOTE } else { m::SHT_PROGBITS }, data.clone());
+            if sec_is_note {
+                f.secs[i].hdr.sh_addralign = *c.pick(&[4u64, 8, 1, 0, 16, 2]);
+            }
             f.segs.push(Seg { hdr: m::Phdr { p_type: m::PT_NOTE, p_align: align, p_memsz: c.val(32), ..Default::default() }, covers: Some(i) });
             filegen::random_layout(&mut c, &mut f, 40);
             let b = filegen::build(&f);
